@@ -126,6 +126,18 @@ func (x *Exec) funcEnv(fi *FuncInfo, mode string, cur, old *State, args []Value,
 	}
 	ev.lookup = func(name string, st *State, isOld bool) (Value, bool) {
 		if mode == "inv" && !isOld {
+			if name == "rangeindex" && x.invLoop != nil {
+				// the hidden counter of the range loop the invariant belongs to
+				for _, a := range fi.Cells["rangeindex"] {
+					for _, ref := range *a.Referrers() {
+						if s, ok := ref.(*ssa.Store); ok && s.Addr == a && s.Block() == x.invLoop.Header {
+							if v, ok := st.cells[a]; ok {
+								return v, true
+							}
+						}
+					}
+				}
+			}
 			if a, err := x.W.cellAt(fi, name, x.invPos); err != nil {
 				sfail("%v", err)
 			} else if a != nil {
@@ -222,6 +234,16 @@ func (w *World) VerifyFunc(fs *FuncSpec) {
 		st.regs[p] = v
 		args = append(args, v)
 		x.addModel(p.Name(), v)
+		// fields of objects passed by pointer hold well-formed slice headers / live references
+		if po, ok := v.(PObj); ok {
+			s := po.Ty.Named.Underlying().(*types.Struct)
+			for f := 0; f < s.NumFields(); f++ {
+				ft := tyFromGo(s.Field(f).Type())
+				if ft.K == TSlice || ft.K == TPtr || ft.K == TArray {
+					x.wfLoaded(st, loadField(st, po.Ty.Named, f, po.Ref))
+				}
+			}
+		}
 	}
 	for _, fv := range fn.FreeVars {
 		// captured variables: pointer to a cell owned by the enclosing function
@@ -577,7 +599,7 @@ func (x *Exec) loopSpec(fr *frame, lp *Loop) *LoopSpec {
 
 func (x *Exec) checkInvariants(st *State, fr *frame, lp *Loop, phase string) {
 	ls := x.loopSpec(fr, lp)
-	x.invPos = lp.BodyPos
+	x.invPos, x.invLoop = lp.BodyPos, lp
 	ev := x.funcEnv(fr.fi, "inv", st, x.entryFor(fr), x.argsFor(fr), nil)
 	n := 0
 	for _, c := range ls.Clauses {
@@ -673,7 +695,7 @@ func (x *Exec) havocLoop(st *State, fr *frame, lp *Loop) {
 		st.globals[g] = v
 	}
 	// assume invariants
-	x.invPos = lp.BodyPos
+	x.invPos, x.invLoop = lp.BodyPos, lp
 	ev := x.funcEnv(fr.fi, "inv", st, x.entry, x.argsFor(fr), nil)
 	for _, c := range ls.Clauses {
 		if c.Kind != "invariant" {
